@@ -20,7 +20,7 @@ func decodeShapes(tier string) []decShape {
 	// Family A: arbitrary bytes, every destination length up to Nd, no caps.
 	Ns, Nd := 6, 12
 	if thorough {
-		Ns, Nd = 8, 20
+		Ns, Nd = 7, 16
 	}
 	for ns := 0; ns <= Ns; ns++ {
 		for _, nk := range []int{0, 1, 3} {
@@ -28,7 +28,7 @@ func decodeShapes(tier string) []decShape {
 				if !thorough && ns >= 5 && (nd%3 != 0 || nk == 1) {
 					continue
 				}
-				if thorough && ns >= 7 && (nd%4 != 0 || nk == 1) {
+				if thorough && ns >= 7 && (nd%4 != 0 || nk != 0) {
 					continue
 				}
 				add(decShape{ns, -1, 0, -1, 0, -1, 0, nd, nk, 0, 0, 0})
@@ -39,12 +39,12 @@ func decodeShapes(tier string) []decShape {
 	}
 	capml, offwin := 24, 18
 	if thorough {
-		capml, offwin = 40, 0
+		capml, offwin = 32, 26
 	}
 	l1s := []int{0, 1, 13, 14, 15, 16, 17, 30, 48, 49}
 	ts := []int{-1, 0, 17, 33}
 	if thorough {
-		ts = []int{-1, 0, 1, 5, 14, 15, 16, 17, 18, 32, 33, 48, 49}
+		ts = []int{-1, 0, 5, 16, 17, 33, 49}
 	}
 	// Family S1: one shaped sequence + final literal run of t bytes.
 	for _, l1 := range l1s {
@@ -59,11 +59,11 @@ func decodeShapes(tier string) []decShape {
 				}
 				nds := []int{L + 4, L + 5, L + 18, L + 19, L + 32, L + 33}
 				if thorough {
-					nds = append(nds, L, L+3, L+17, L+22, L+31, L+34, L+36, L+50)
+					nds = append(nds, L, L+17, L+31, L+34)
 				}
 				for _, nd := range nds {
 					add(decShape{0, l1, m1, -1, 0, t, 0, nd, 0, 0, capml, offwin})
-					if nd == L+5 || nd == L+33 || thorough {
+					if nd == L+5 || nd == L+33 || (thorough && nd == L+19) {
 						add(decShape{0, l1, m1, -1, 0, t, 0, nd, 3, 0, capml, offwin})
 					}
 				}
@@ -127,8 +127,8 @@ func decodeBounds(tier string) []string {
 	Ns, Nd := 6, 12
 	capb := "in the shaped families valid matches are bounded to length <= 24 and offsets to <= 18 or within 2 of the farthest reachable byte (assumed; longer/other matches only in family A)"
 	if tier == "thorough" {
-		Ns, Nd = 8, 20
-		capb = "in the shaped families valid matches are bounded to length <= 40 (assumed; longer matches only in family A); all offsets"
+		Ns, Nd = 7, 16
+		capb = "in the shaped families valid matches are bounded to length <= 32 and offsets to <= 26 or within 2 of the farthest reachable byte (assumed; longer/other matches only in family A)"
 	}
 	return []string{
 		capb,
